@@ -198,4 +198,17 @@ REG = {
          "Trapezoidal is not executed (8.6e9 evaluations). A known finding is listed for Trapezoidal (about 7e-6 instead of 1e-6 on damped oscillations). Monte-Carlo "
          "methods of the 2D/3D front ends are decided by C14.",
     technique="exact-rational TLA+ model of separable nested integrals with a wiring invariant (TLC enumerates method x dimension x orientation x parameter), replay of exported cases with an argument-range-checking integrand, trace validation"),
+ "C18": dict(
+    engine="spec/Samplers.tla, MC_Samplers.tla, Trace_Samplers.tla; harness/c18.cpp",
+    design_ref="DESIGN.md §4.18",
+    text="Samplers.tla keeps no state but a memo from (sampler, parameters, digest of the caller's generator state) to (digest of the outputs, digest of the state left "
+         "behind): a recorded call is accepted only if it delivered exactly the requested number of samples, all inside the support or requested domain, changed the "
+         "generator it was given, and agrees with every other call with the same triple. The recorder interleaves nine samplers (uniform, Gauss, Poisson scalar/vector "
+         "incl. means above 500, inverse transform, rejection 1D/2D tight and loose, Metropolis 1D/2D bounded and unbounded) on one generator and repeats every call on a "
+         "copy of the generator, immediately or after other samplers have run, so any hidden source of randomness or hidden state rejects the trace. The burn-in/thinning "
+         "bookkeeping is modelled as the code does it and TLC proves 'exactly sample values' for every triple in 0..40; the real functions are run on the grid 0..8^3 "
+         "(12^3 thorough) plus a sparse grid to 200. Goodness-of-fit p-values (KS / chi-square) of large samples must stay above 1e-9.",
+    note="Law clauses are statistical (fixed seeds, 1e5 samples quick / 1e6 thorough; Metropolis thinned by 30). Digests are 64-bit: a collision could hide a difference with "
+         "probability ~1e-16 per pair. thinning = 0 is outside the quantifier.",
+    technique="TLA+ memo specification of sampling calls (no history variable) + model of the burn-in/thinning loop (TLC exhaustive) + trace validation of interleaved calls repeated on generator copies"),
 }
